@@ -1,0 +1,180 @@
+// Copyright 2025 The Go Authors. All rights reserved.
+// Use of this source code is governed by a BSD-style
+// license that can be found in the LICENSE file.
+
+//go:build verif
+
+package quic
+
+// Contracts for the deductive verifier in /verif (govc), property C25: QUIC acknowledges only
+// received packets and never processes a packet number twice.
+
+// ---------------------------------------------------------------------------
+// rangeset[packetNumber]: the instance used by ackState (the int64 instance is under contract in
+// verif_contracts.go, property C24).
+
+//@ func (rangeset[packetNumber]).min(s) (r)
+//@   ensures len(s) > 0 ==> r == s[0].start
+//@   ensures len(s) == 0 ==> r == 0
+//@ func (rangeset[packetNumber]).max(s) (r)
+//@   ensures len(s) > 0 ==> r == s[len(s)-1].end - 1
+//@   ensures len(s) == 0 ==> r == 0
+//@ func (rangeset[packetNumber]).numRanges(s) (r)
+//@   ensures r == len(s)
+//@
+//@ func (rangeset[packetNumber]).contains(s, v) (r)
+//@   requires forall j int, k int :: 0 <= j && j < k && k < len(s) ==> s[j].end < s[k].start
+//@   requires forall k int :: 0 <= k && k < len(s) ==> s[k].start < s[k].end
+//@   ensures  r ==> (exists k int :: 0 <= k && k < len(s) && s[k].start <= v && v < s[k].end)
+//@   ensures  !r ==> (forall k int :: 0 <= k && k < len(s) ==> !(s[k].start <= v && v < s[k].end))
+//@   loop 1 invariant -1 <= rangeindex && rangeindex < len(s)
+//@   loop 1 invariant forall k int :: 0 <= k && k <= rangeindex ==> s[k].end <= v
+
+//@ func (rangeset[packetNumber]).rangeContaining(s, v) (r)
+//@   requires forall j int, k int :: 0 <= j && j < k && k < len(s) ==> s[j].end < s[k].start
+//@   requires forall k int :: 0 <= k && k < len(s) ==> s[k].start < s[k].end
+//@   ensures  r.start != 0 || r.end != 0 ==> r.start <= v && v < r.end && (exists k int :: 0 <= k && k < len(s) && s[k].start == r.start && s[k].end == r.end)
+//@   ensures  r.start == 0 && r.end == 0 ==> (forall k int :: 0 <= k && k < len(s) ==> !(s[k].start <= v && v < s[k].end))
+//@   loop 1 invariant -1 <= rangeindex && rangeindex < len(s)
+//@   loop 1 invariant forall k int :: 0 <= k && k <= rangeindex ==> s[k].end <= v
+
+//@ func (*rangeset[packetNumber]).removeranges(s, i, j)
+//@   uses lemmaShiftUp
+//@   requires s != nil && 0 <= i && i <= j && j <= len(*s) && len(*s) < 1<<40
+//@   ensures  len(*s) == old(len(*s)) - (j - i)
+//@   ensures  forall k int :: 0 <= k && k < i ==> (*s)[k] == old((*s)[k])
+//@   ensures  forall k int :: i <= k && k < len(*s) ==> shiftUpOK(k, i, j, old(len(*s))) && (*s)[k] == old((*s)[k + (j - i)])
+//@   modifies *s, elems(*s)
+//@
+//@ func (*rangeset[packetNumber]).insertrange(s, i, start, end)
+//@   allocates
+//@   requires s != nil && 0 <= i && i <= len(*s) && len(*s) < 1<<40
+//@   ensures  len(*s) == old(len(*s)) + 1 && (*s)[i].start == start && (*s)[i].end == end
+//@   ensures  forall k int :: 0 <= k && k < i ==> (*s)[k] == old((*s)[k])
+//@   ensures  forall k int :: i < k && k < len(*s) ==> (*s)[k] == old((*s)[k-1])
+//@   modifies *s, elems(*s)
+
+// (*rangeset[packetNumber]).add is NOT under contract: a contract with the representation invariant
+// and the exact set semantics was written (all loop invariants, frames and no-panic obligations of
+// add discharge; the postconditions on the three paths that restructure the list - append, insert,
+// merge - do not, see the report of property C25).
+
+// Index arithmetic of removeranges (64-bit machine integers, no wrap-around below 2^40): the
+// predicates are kept uninterpreted (flag recursive: defining equation unfolded per use) so that the
+// two lemmas are instantiated by matching.
+//
+//@ pure
+//@ recursive
+func shiftUpOK(k, i, j, n int) bool {
+	return j <= k+(j-i) && k+(j-i) < n
+}
+
+//@ lemma
+//@ requires 0 <= i && i <= j && j <= n && n < 1<<40 && i <= k && k < n - (j - i)
+//@ ensures shiftUpOK(k, i, j, n)
+func lemmaShiftUp(k, i, j, n int) {
+}
+
+
+// ---------------------------------------------------------------------------
+// acks.go
+
+// shouldProcess: a packet number is accepted exactly when it is not below the floor of the
+// remembered ranges (numbers below have been discarded and might be duplicates) and not in the set.
+//
+//@ func (*ackState).shouldProcess(acks, num) (ok)
+//@   requires acks != nil
+//@   requires forall j int, k int :: 0 <= j && j < k && k < len(acks.seen) ==> acks.seen[j].end < acks.seen[k].start
+//@   requires forall k int :: 0 <= k && k < len(acks.seen) ==> acks.seen[k].start < acks.seen[k].end
+//@   ensures  (exists k int :: 0 <= k && k < len(acks.seen) && acks.seen[k].start <= num && num < acks.seen[k].end) ==> !ok
+//@   ensures  len(acks.seen) > 0 && num < acks.seen[0].start ==> !ok
+//@   ensures  len(acks.seen) == 0 && num < 0 ==> !ok
+//@   ensures  !ok ==> (exists k int :: 0 <= k && k < len(acks.seen) && acks.seen[k].start <= num && num < acks.seen[k].end) || (len(acks.seen) > 0 && num < acks.seen[0].start) || (len(acks.seen) == 0 && num < 0)
+//@
+//@ func (*ackState).largestSeen(acks) (r)
+//@   requires acks != nil
+//@   ensures  len(acks.seen) > 0 ==> r == acks.seen[len(acks.seen)-1].end - 1
+//@   ensures  len(acks.seen) == 0 ==> r == 0
+
+// ---------------------------------------------------------------------------
+// loss.go: pnIdx is the position of packet number num in a sent-packet list whose next number is
+// nextNum and which retains size packets (the index used by sentPacketList.num).
+//
+//@ pure
+func pnIdx(num, nextNum packetNumber, size int) int {
+	return int(num - (nextNum - packetNumber(size)))
+}
+
+// ---------------------------------------------------------------------------
+// packet_writer.go: the ACK frame is computed from the range set alone, largest range first, without
+// skipping a range: Largest Acknowledged is the last number of the last range, First ACK Range its
+// length minus one, and the i-th (Gap, ACK Range Length) pair is the distance between range i+1 and
+// range i of the set (minus one) and the length of range i (minus one), for i descending from the
+// second-to-last range by one per pair; the Range Count byte is the number of pairs written.
+// (Decoding those fields as RFC 9000 section 19.3.1 prescribes, which is what consumeAckFrame
+// does, yields exactly the ranges seen[len-1], seen[len-2], ..., a suffix of the set.)
+//
+//@ func (*packetWriter).appendAckFrame(w, seen, delay, ecn) (added)
+//@   requires w != nil && writerOK(w) && !samebase(w.sent.b, w.b) && len(w.b) <= w.pktLim
+//@   requires len(seen) <= 1<<20 && 0 <= delay && delay <= 1<<62-1
+//@   requires 0 <= ecn.t0 && ecn.t0 <= 1<<62-1 && 0 <= ecn.t1 && ecn.t1 <= 1<<62-1 && 0 <= ecn.ce && ecn.ce <= 1<<62-1
+//@   requires forall j int, k int :: 0 <= j && j < k && k < len(seen) ==> seen[j].end < seen[k].start
+//@   requires forall k int :: 0 <= k && k < len(seen) ==> 0 <= seen[k].start && seen[k].start < seen[k].end && seen[k].end <= 1<<62
+//@   requires !samebase(seen, w.b) && !samebase(seen, w.sent.b)
+//@   assert at call AppendVarint#1: $v == uint64(seen[len(seen)-1].end - 1)
+//@   assert at call AppendVarint#2: $v == uint64(delay)
+//@   assert at call AppendVarint#3: $v == uint64(seen[len(seen)-1].end - seen[len(seen)-1].start - 1)
+//@   assert at call AppendVarint#4: 0 <= i && i+1 < len(seen) && int(rangeCount) == len(seen) - 2 - i && $v == uint64(seen[i+1].start - seen[i].end - 1)
+//@   assert at call AppendVarint#5: 0 <= i && i+1 < len(seen) && int(rangeCount) == len(seen) - 2 - i && $v == uint64(seen[i].end - seen[i].start - 1)
+//@   ensures  len(seen) == 0 ==> !added
+//@   ensures  !added ==> len(w.b) == old(len(w.b))
+//@   ensures  added ==> len(w.b) > old(len(w.b))
+//@   noframe
+//@   loop 1 invariant -1 <= i && i <= len(seen) - 2 && int(rangeCount) == len(seen) - 2 - i && rangeCount <= 63
+//@   loop 1 invariant w.sent == old(w.sent) && w.pktLim == old(w.pktLim) && len(w.b) <= w.pktLim && rangeCountOff < len(w.b) && old(len(w.b)) < rangeCountOff && samebase(w.b, old(w.b)) && startoff(w.b) == old(startoff(w.b)) && cap(w.b) == old(cap(w.b))
+//@   loop 1 invariant w.b[old(len(w.b))] == ackType && (ackType == frameTypeAck || ackType == frameTypeAckECN)
+//@   loop 1 invariant 0 <= ecnLen && ecnLen <= 24
+//@   loop 1 modifies w.b, elems(w.b), spare(w.b)
+//@   modifies *w, *w.sent, elems(w.b), spare(w.b), elems(w.sent.b), spare(w.sent.b)
+//@   allocates
+
+// acksToSend hands the packet writer the set of received packet numbers itself (or nothing).
+//
+//@ func (*ackState).acksToSend(acks, now) (nums, ackDelay)
+//@   requires acks != nil
+//@   ensures  len(nums) == 0 || (samebase(nums, acks.seen) && startoff(nums) == startoff(acks.seen) && len(nums) == len(acks.seen))
+//@   ensures  ackDelay >= 0
+
+// skipNumber: the skipped packet number is recorded as a never-sent packet, so that a peer
+// acknowledging it is caught by receiveAckRange.
+//
+//@ func (*lossState).skipNumber(c, now, space)
+//@   allocates
+//@   requires c != nil && 0 <= space && space < numberSpaceCount
+//@   requires splOK(&c.spaces[space].sentPacketList) && len(c.spaces[space].p) <= 1<<39
+//@   assert at call add: $sent != nil && $sent.state == sentPacketUnsent && $sent.num == c.spaces[space].nextNum
+//@   ensures  c.spaces[space].nextNum == old(c.spaces[space].nextNum) + 1 && c.spaces[space].size == old(c.spaces[space].size) + 1
+//@   ensures  splAt(&c.spaces[space].sentPacketList, old(c.spaces[space].size)).state == sentPacketUnsent
+//@   noframe
+
+// newSentPacket takes a packet record from a sync.Pool (outside the subset): trusted to return a
+// record.
+//
+//@ func newSentPacket() (sent)
+//@   trusted
+//@   allocates
+//@   ensures sent != nil && fresh(sent)
+
+// receiveAckRange (base contract in verif_contracts.go, property C26), extended for C25: an ACK range
+// that reaches beyond the numbers sent, or that covers a skipped (unsent) number, is a
+// PROTOCOL_VIOLATION; an error for a range within the numbers sent implies a retained packet inside
+// the range that was unsent at entry. (The converse -- every unsent packet in the range yields the
+// error -- is not proved.)
+//
+//@ extend (*lossState).receiveAckRange(c, now, space, rangeIndex, start, end, ackf) (err)
+//@   ensures  end > old(c.spaces[space].nextNum) ==> hastype(err, localTransportError) && err.(localTransportError).code == errProtocolViolation
+//@   ensures  err != nil ==> hastype(err, localTransportError) && err.(localTransportError).code == errProtocolViolation
+//@   ensures  err != nil && end <= old(c.spaces[space].nextNum) ==> (exists k int :: 0 <= k && k < old(c.spaces[space].size) && start <= old(c.spaces[space].nextNum) - packetNumber(old(c.spaces[space].size)) + packetNumber(k) && old(c.spaces[space].nextNum) - packetNumber(old(c.spaces[space].size)) + packetNumber(k) < end && old(splAt(&c.spaces[space].sentPacketList, k).state) == sentPacketUnsent)
+//@   loop 1 invariant c.spaces[space].size == old(c.spaces[space].size) && c.spaces[space].nextNum == old(c.spaces[space].nextNum) && pnum <= end
+//@   loop 1 invariant forall k int :: 0 <= k && k < c.spaces[space].size ==> splAt(&c.spaces[space].sentPacketList, k) == old(splAt(&c.spaces[space].sentPacketList, k))
+//@   loop 1 invariant forall k int :: 0 <= k && k < c.spaces[space].size ==> ((splAt(&c.spaces[space].sentPacketList, k).state == sentPacketUnsent) <==> (old(splAt(&c.spaces[space].sentPacketList, k).state) == sentPacketUnsent))
